@@ -113,6 +113,8 @@ def check_pairwise(ctx, case):
   n = sum(len(b[0]) for b in batches)
   ctx.case(('misc', sub, config, case['input']), n >= 3)
   ctx.count('misc_%s_cases' % sub)
+  if config.get('scale_exp') is not None:
+    ctx.count('misc_scaled_magnitude_cases')
   int32 = sub == 'rreg' and config.get('data') == 'int32'
   if sub == 'rreg' and config.get('data') == 'offset':
     ctx.count('misc_rreg_offset_cases')
@@ -224,6 +226,8 @@ def check_mathutils(ctx, case):
   mis = cm.Mis()
   ctx.case(('misc', 'mathutils', case['input']), len(a) >= 2)
   ctx.count('misc_mathutils_cases')
+  if (case.get('config') or {}).get('scale_exp') is not None:
+    ctx.count('misc_scaled_magnitude_cases')
   nonan = lambda v: not (isinstance(v, float) and math.isnan(v))
   try:
     with cm.observed_warnings(ctx, 'misc'):
